@@ -151,14 +151,14 @@ Definition recv_msg (pl : plan) (max : nat) (s : st) : list event * rr * st :=
   end.
 
 (* the caller: for { m, err := stream.Recv(); if err != nil { break } } *)
-Fixpoint caller (recv : st -> list event * rr * st) (fuel : nat) (s : st) : list event * final :=
+Fixpoint caller (recv : st -> list event * rr * st) (fuel : nat) (s : st) : list event * final * st :=
   match fuel with
-  | 0 => ([], FOutOfFuel)
+  | 0 => ([], FOutOfFuel, s)
   | S f =>
       let '(ev, r, s') := recv s in
       match r with
-      | RMsg _ _ => let '(ev', fin) := caller recv f s' in (ev ++ ev', fin)
-      | RErr e => (ev, e)
+      | RMsg _ _ => let '(ev', fin, s'') := caller recv f s' in (ev ++ ev', fin, s'')
+      | RErr e => (ev, e, s')
       end
   end.
 
@@ -175,7 +175,7 @@ Definition run_stream (m : meth) (max : nat) (script : list sscript) (pl : plan)
   : list event * final :=
   let '(ev0, s0) := init script r in
   let recv := if need_retry m then recv_msg pl max else raw_recv pl in
-  let '(ev, fin) := caller recv (S (total_msgs script)) s0 in
+  let '(ev, fin, _) := caller recv (S (total_msgs script)) s0 in
   (ev0 ++ ev, fin).
 
 (* NewUnaryRetry: backoff.Retry(invoker, WithMaxRetries(..., Max)); invocation i
